@@ -43,6 +43,8 @@ def build(prefix=""):
 MINI = build()
 MINI_P = build("p:")
 GROUP = HedSchemaGroup([MINI, MINI_P])
+MINI_A = build("a:")          # a library prefix whose letter also begins node names (A, a/b, ...)
+GROUP_A = HedSchemaGroup([MINI, MINI_A])
 
 
 def fresh(obj=None):
